@@ -88,6 +88,11 @@ def gen_case(rng):
     method = rng.choice([None, None, None, 'left', 'right']) if kind in 'if' else None
     mode = rng.choice(MODES)
     new = new_labels(rng, sp["labels"][k], kind, mode)
+    lt = (sp.get("ldtypes") or [None] * len(sp["dims"]))[k]
+    if lt in ('int8', 'int16', 'uint8', 'uint16') and mode in ('superset', 'disjoint') and rng.random() < 0.6:
+        # a requested integer label that the (narrow) dtype of the existing labels cannot hold
+        new = list(new)
+        new.insert(rng.randint(0, len(new)), rng.choice([70000, 100000 + len(new)]))
     if method is not None:
         new = sorted(set([v + rng.choice([0, 0.5, -0.5, 3, -3, 0.25, 40]) for v in new] or [1.0]))
     return {"mode": mode, "a": sp, "k": k, "new": new, "form": rng.choice(['list', 'arr', 'Axis']),
